@@ -344,4 +344,27 @@ theorem decExp_one : decExp 1 = 0 := by
   unfold decExp
   simp [natDigits, pow10]
 
+
+/-- the sign is carried through unchanged -/
+theorem roundedValue_neg (prec : ℕ) (a : ℚ) : roundedValue prec true a = - roundedValue prec false a := by
+  unfold roundedValue
+  simp only []
+  split
+  · simp
+  · rcases roundSig (if (prec == 0) = true then 1 else prec) a with ⟨N, X⟩
+    simp only [if_true, Bool.false_eq_true, if_false]
+    ring
+
+theorem roundedValue_error_signed (prec : ℕ) (neg : Bool) (a : ℚ) (ha : 0 < a) :
+    |roundedValue prec neg a - (if neg then -a else a)|
+      ≤ a / (2 * (10 : ℚ) ^ ((if prec = 0 then 1 else prec) - 1)) := by
+  cases neg with
+  | false => simpa using roundedValue_error prec a ha
+  | true =>
+    rw [roundedValue_neg]
+    have : -roundedValue prec false a - (if true = true then -a else a) = -(roundedValue prec false a - a) := by
+      simp only [if_true]; ring
+    rw [this, abs_neg]
+    exact roundedValue_error prec a ha
+
 end Bpp.Text.NumFmt
